@@ -514,6 +514,28 @@ Lemma gamma_not_reimportable mt n ty : n <> "lumi" -> dict_get n mt = Some ty ->
 Proof. unfold name_guard, rootname. intros Hn Hd Hp Hg. destruct (String.eqb_spec n "lumi"); [congruence|]. rewrite Hd, Hp in Hg.
   specialize (Hg _ eq_refl). destruct (interp_gamma n) as [e He]. simpl in *. congruence. Qed.
 
+(* normfactor settings: what the writer takes from the first measurement *)
+Lemma nf_fold_nomatch n ps : forall acc, Forall (fun p => String.eqb (p_name N p) n = false) ps ->
+  fold_left (nf_step N n) ps (inl acc) = inl acc.
+Proof. induction ps as [|p ps IH]; intros acc H; simpl; auto. inversion H; subst.
+  unfold nf_step at 1. destruct acc as [[v l] h]. cbn [bind]. rewrite H2. now apply IH. Qed.
+Lemma nf_step_match n p acc v vs l h bs : p_name N p = n -> p_inits N p = Some (v :: vs) -> p_bounds N p = Some ((l, h) :: bs) ->
+  nf_step N n (inl acc) p = inl (v, l, h).
+Proof. intros Hn Hi Hb. unfold nf_step. destruct acc as [[v0 l0] h0]. cbn [bind]. rewrite Hn, String.eqb_refl, Hi, Hb. reflexivity. Qed.
+(* no parameter config of that name in the first measurement: Val 1, Low 0, High 10 *)
+Theorem nf_settings_default ws m0 ms n : w_meas N ws = m0 :: ms ->
+  Forall (fun p => String.eqb (p_name N p) n = false) (me_params N m0) ->
+  nf_settings N ws n = inl (n1 N, n0 N, nofZ N 10).
+Proof. intros Hm H. unfold nf_settings. rewrite Hm. now apply nf_fold_nomatch. Qed.
+(* exactly one config of that name, with inits and bounds: those *)
+Theorem nf_settings_custom ws m0 ms n pre p post v vs l h bs : w_meas N ws = m0 :: ms -> me_params N m0 = pre ++ p :: post ->
+  Forall (fun q => String.eqb (p_name N q) n = false) pre -> Forall (fun q => String.eqb (p_name N q) n = false) post ->
+  p_name N p = n -> p_inits N p = Some (v :: vs) -> p_bounds N p = Some ((l, h) :: bs) ->
+  nf_settings N ws n = inl (v, l, h).
+Proof. intros Hm Hp Hpre Hpost Hn Hi Hb. unfold nf_settings. rewrite Hm, Hp, fold_left_app.
+  unfold ret. rewrite (nf_fold_nomatch n pre _ Hpre). cbn [fold_left].
+  rewrite (nf_step_match n p _ v vs l h bs Hn Hi Hb). now apply nf_fold_nomatch. Qed.
+
 (* ---------- normfactor settings come back in every measurement ---------- *)
 Theorem normfactor_recovered ws x file ws' :
   write N ws = inl (x, file) -> w_obs N ws <> [] -> stat_ok N ws -> names_ok ws -> read N x file = inl ws' ->
